@@ -3,7 +3,10 @@ what the tool wrote back into the abstract domain.
 
 An abstract case is (ops, srcs, prog) as emitted by spec/MC_Core.tla.  beta maps atoms to concrete
 Python values (monotone for <= / >= sites), keys to concrete dict keys, and chooses a hand-written
-("non canonical") spelling for entries whose canon flag is FALSE.
+("non canonical") spelling for entries whose canon flag is FALSE.  gamma additionally chooses where
+the snapshot() calls are placed (the call-site key of the tool is (code object, instruction offset))
+and - for C17 - lets every compared value live in a mutable object that is mutated after each
+comparison.
 """
 from __future__ import annotations
 
@@ -36,20 +39,36 @@ KEY_POOLS = [
     [-1, 10 ** 12, "x", 2.5],
 ]
 WRAPPERS = ["[{t}][0]", "({t} if 1 else 0)", "(lambda: {t})()", "max([{t}])", "[0, {t}][-1]"]
+# mutable carriers for C17: the compared object is rebuilt in place for every comparison
+CARRIERS = ["list", "dict", "nested"]
+PLACEMENTS = ["func", "oneline", "samefunc", "nested", "param"]
 
 
 class Beta:
-    def __init__(self, rng: random.Random, natoms: int, ops, need_order: bool):
+    def __init__(self, rng: random.Random, natoms: int, ops, need_order: bool, carrier: str | None = None):
         pools = [p for p in (ORDERED_POOLS if need_order else PLAIN_POOLS) if len(p) >= natoms]
+        if carrier == "dict" and need_order:
+            carrier = "list"            # dicts are not ordered
         pool = rng.choice(pools)
         # a monotone injection of the atoms into the pool
         idx = sorted(rng.sample(range(len(pool)), natoms))
-        self.atoms = [pool[i] for i in idx]
+        self.raw = [pool[i] for i in idx]
+        self.carrier = carrier
+        self.atoms = [self.carry(v) for v in self.raw]
         kp = rng.choice(KEY_POOLS)
         self.keys = kp
         self.wrapper = rng.choice(WRAPPERS)
-        self.reflect = rng.random() < 0.5
-        self.name = "atoms=%r keys=%r wrap=%s" % (self.atoms, self.keys[:3], self.wrapper)
+        self.site_wrapper: dict = {}
+        self.name = "atoms=%r keys=%r wrap=%s carrier=%s" % (self.atoms, self.keys[:3], self.wrapper, carrier)
+
+    def carry(self, v):
+        if self.carrier == "list":
+            return [v]
+        if self.carrier == "dict":
+            return {"k": v}
+        if self.carrier == "nested":
+            return [0, [v, "t"]]
+        return v
 
     def val(self, a):
         return self.atoms[a]
@@ -60,9 +79,12 @@ class Beta:
     def canon_text(self, a):
         return repr(self.atoms[a])
 
-    def entry_text(self, e):
+    def entry_text(self, e, site=None):
         t = self.canon_text(e["v"])
-        return t if e["canon"] else self.wrapper.format(t=t)
+        if e["canon"]:
+            return t
+        w = self.site_wrapper.get(site, self.wrapper)
+        return w.format(t=t, t2=self.canon_text((e["v"] + 1) % len(self.atoms)), i=site)
 
     def inv(self, value):
         for i, a in enumerate(self.atoms):
@@ -85,24 +107,29 @@ def needs_order(ops, prog):
     return any(o in ("le", "ge") for o in ops)
 
 
-def src_text(beta: Beta, op: str, src) -> str:
+def src_text(beta: Beta, op: str, src, site=None) -> str:
     if not src["def"]:
         return ""
     e = src["e"]
+    first_hand = next((j for j, x in enumerate(e) if not x["canon"]), None)
+
+    def et(j, x):
+        # only the first hand-written entry of a site carries the "changing" spelling
+        return beta.entry_text(x, site if j == first_hand else None)
     if op in ("eq", "le", "ge", "none"):
-        return beta.entry_text(e[0])
+        return et(0, e[0])
     if op == "in":
-        return "[" + ", ".join(beta.entry_text(x) for x in e) + "]"
+        return "[" + ", ".join(et(j, x) for j, x in enumerate(e)) + "]"
     if op == "dict":
-        return "{" + ", ".join("%r: %s" % (beta.key(x["k"]), beta.entry_text(x)) for x in e) + "}"
+        return "{" + ", ".join("%r: %s" % (beta.key(x["k"]), et(j, x)) for j, x in enumerate(e)) + "}"
     raise ValueError(op)
 
 
-def stmt_expr(beta: Beta, s, site_expr: str, reflect: bool) -> str:
-    x = repr(beta.val(s["x"]))
+def stmt_expr(beta: Beta, s, site_expr: str, reflect: bool, x_expr: str | None = None) -> str:
+    x = x_expr or repr(beta.val(s["x"]))
     op = s["op"]
     S = site_expr
-    if op == "none":
+    if op in ("none", "chg"):
         return S
     if op == "eq":
         return f"{S} == {x}" if reflect else f"{x} == {S}"
@@ -123,33 +150,97 @@ def stmt_expr(beta: Beta, s, site_expr: str, reflect: bool) -> str:
 
 
 HEADER = "from inline_snapshot import snapshot\nimport verif_rec as _r\n\n"
+CHG_WRAPPER = "[{t}, {t2}][_chg[{i}]]"
 
 
-def render(ops, srcs, prog, beta: Beta, imp: bool, rng: random.Random, placement: str = "func") -> str:
-    """The test module for an abstract case.
+def has_chg(prog, site=None):
+    return any(s["op"] == "chg" and (site is None or s["site"] == site) for t in prog for s in t)
 
-    placement "func":   def s1(): return snapshot(<src>)     (evaluated by every statement)
-              "module": _s1 = snapshot(<src>) at import; s1() returns it
+
+def render(ops, srcs, prog, beta: Beta, imp: bool, rng: random.Random, placement: str | None = None,
+           mutate: bool = False) -> str:
+    """The test module for an abstract case.  Site i is reached through the expression ``s<i>()``.
+
+    placements (imp = FALSE; every statement evaluates the call):
+      func      def s1(): return snapshot(<src>)
+      oneline   all calls on ONE line, each inside its own lambda
+      samefunc  one function holding every call (same code object, different instruction offsets)
+      nested    the functions are closures created by a factory
+      param     a helper receives the snapshot as an argument:  _cmp(lambda s: x <= s, s1())
+    imp = TRUE: the calls are evaluated once at import (module level), tests use the stored objects
     """
+    n = len(ops)
+    if imp:
+        placement = "module"
+    elif placement is None:
+        placement = rng.choice(PLACEMENTS)
+    for i in range(1, n + 1):
+        if has_chg(prog, i):
+            beta.site_wrapper[i] = CHG_WRAPPER
     out = [HEADER]
-    for i, (op, src) in enumerate(zip(ops, srcs), 1):
-        t = src_text(beta, op, src)
-        if imp:
+    if has_chg(prog):
+        out.append("_chg = {%s}\n\n" % ", ".join("%d: 0" % i for i in range(1, n + 1)))
+    texts = [src_text(beta, op, src, i) for i, (op, src) in enumerate(zip(ops, srcs), 1)]
+    if placement == "module":
+        for i, t in enumerate(texts, 1):
             out.append(f"_s{i} = snapshot({t})\n\n\ndef s{i}():\n    return _s{i}\n\n\n")
-        else:
+    elif placement == "oneline":
+        out.append("_S = [" + ", ".join(f"lambda: snapshot({t})" for t in texts) + "]\n\n\n")
+        for i in range(1, n + 1):
+            out.append(f"def s{i}():\n    return _S[{i - 1}]()\n\n\n")
+    elif placement == "samefunc":
+        out.append("def _site(i):\n")
+        for i, t in enumerate(texts, 1):
+            out.append(f"    if i == {i}:\n        return snapshot({t})\n")
+        out.append("\n\n")
+        for i in range(1, n + 1):
+            out.append(f"def s{i}():\n    return _site({i})\n\n\n")
+    elif placement == "nested":
+        out.append("def _make():\n")
+        for i, t in enumerate(texts, 1):
+            out.append(f"    def f{i}():\n        return snapshot({t})\n\n")
+        out.append("    return [" + ", ".join(f"f{i}" for i in range(1, n + 1)) + "]\n\n\n")
+        out.append("_F = _make()\n\n\n")
+        for i in range(1, n + 1):
+            out.append(f"def s{i}():\n    return _F[{i - 1}]()\n\n\n")
+    else:
+        for i, t in enumerate(texts, 1):
             out.append(f"def s{i}():\n    return snapshot({t})\n\n\n")
+    if placement == "param":
+        out.append("def _cmp(f, s):\n    return f(s)\n\n\n")
+    if mutate:
+        out.append("import copy as _copy\n\n\ndef _set(o, v):\n"
+                   "    # in-place mutation of the compared object\n"
+                   "    if isinstance(o, list):\n        o[:] = _copy.deepcopy(v)\n"
+                   "    else:\n        o.clear()\n        o.update(_copy.deepcopy(v))\n    return o\n\n\n")
     for ti, test in enumerate(prog, 1):
         out.append(f"def test_{ti}():\n")
+        if mutate:
+            out.append(f"    _o = _set({type(beta.val(0)).__name__}(), {beta.val(0)!r})\n")
         for j, s in enumerate(test, 1):
             refl = rng.random() < 0.5
-            e = stmt_expr(beta, s, f"s{s['site']}()", refl)
+            site = f"s{s['site']}()"
+            xe = None
+            if mutate and s["op"] not in ("none", "chg"):
+                out.append(f"    _set(_o, {beta.val(s['x'])!r})\n")
+                xe = "_o"
+            if placement == "param" and s["op"] not in ("none", "chg"):
+                e = "_cmp(lambda _s: %s, %s)" % (stmt_expr(beta, s, "_s", refl, xe), site)
+            else:
+                e = stmt_expr(beta, s, site, refl, xe)
             out.append(f"    with _r.at({ti}, {j}):\n")
             if s["op"] == "none":
                 out.append(f"        {e}\n")
+            elif s["op"] == "chg":
+                out.append(f"        _chg[{s['site']}] = 1\n        try:\n            {e}\n"
+                           f"        finally:\n            _chg[{s['site']}] = 0\n")
             elif s["assert"]:
                 out.append(f"        assert {e}\n")
             else:
                 out.append(f"        _r.val({e})\n")
+            if mutate and s["op"] not in ("none", "chg"):
+                # mutate the object that was just compared (the next comparison sets it again)
+                out.append(f"    _set(_o, {beta.val((s['x'] + 1) % len(beta.atoms))!r})\n")
         out.append("\n\n")
     return "".join(out)
 
@@ -161,10 +252,10 @@ def _same(node, text):
         return False
 
 
-def alpha_entry(beta: Beta, node, k=0, env=None):
+def alpha_entry(beta: Beta, node, k=0, site=None):
     """abstract entry {k, v, canon} of an expression node, or {"alien": text}"""
     try:
-        value = eval(compile(ast.Expression(node), "<alpha>", "eval"), dict(env or {}))
+        value = eval(compile(ast.Expression(node), "<alpha>", "eval"), {"_chg": {i: 0 for i in range(0, 10)}})
     except Exception as e:  # noqa
         return {"alien": "eval: %s" % type(e).__name__}
     a = beta.inv(value)
@@ -172,20 +263,21 @@ def alpha_entry(beta: Beta, node, k=0, env=None):
         return {"alien": "value %r" % (value,)}
     if _same(node, beta.canon_text(a)):
         return {"k": k, "v": a, "canon": True}
-    if _same(node, beta.wrapper.format(t=beta.canon_text(a))):
-        return {"k": k, "v": a, "canon": False}
+    for w in {beta.wrapper, beta.site_wrapper.get(site, beta.wrapper)}:
+        if _same(node, w.format(t=beta.canon_text(a), t2=beta.canon_text((a + 1) % len(beta.atoms)), i=site)):
+            return {"k": k, "v": a, "canon": False}
     return {"alien": "text %s" % ast.unparse(node)}
 
 
-def alpha_src(beta: Beta, op: str, arg_node):
+def alpha_src(beta: Beta, op: str, arg_node, site=None):
     if arg_node is None:
         return {"def": False, "e": []}
     if op in ("eq", "le", "ge", "none"):
-        return {"def": True, "e": [alpha_entry(beta, arg_node)]}
+        return {"def": True, "e": [alpha_entry(beta, arg_node, 0, site)]}
     if op == "in":
         if not isinstance(arg_node, ast.List):
             return {"def": True, "e": [{"alien": "not a list: " + ast.unparse(arg_node)}]}
-        return {"def": True, "e": [alpha_entry(beta, n) for n in arg_node.elts]}
+        return {"def": True, "e": [alpha_entry(beta, n, 0, site) for n in arg_node.elts]}
     if op == "dict":
         if not isinstance(arg_node, ast.Dict) or any(k is None for k in arg_node.keys):
             return {"def": True, "e": [{"alien": "not a dict: " + ast.unparse(arg_node)}]}
@@ -200,6 +292,6 @@ def alpha_src(beta: Beta, op: str, arg_node):
             if k is None:
                 es.append({"alien": "key %r" % (kv,)})
                 continue
-            es.append(alpha_entry(beta, vn, k))
+            es.append(alpha_entry(beta, vn, k, site))
         return {"def": True, "e": es}
     raise ValueError(op)
